@@ -322,8 +322,12 @@ func (ex *Exec) recvInstr(fr *Frame, x *ssa.UnOp, st *State) {
 	c := ex.toTerm(st, ex.val(fr, st, x.X), x.X.Type())
 	et := x.X.Type().Underlying().(*types.Chan).Elem()
 	v := vc.fresh("recv", vc.sorts.SortOf(et))
+	ex.interfereUnlocked(fr, st)
 	vc.curChanName, vc.curChanElem = chanSourceName(x.X), et
 	ex.chanEvent(fr, st, "recv", c, v)
+	if vc.closeOnly(vc.curChanName) {
+		st.assume(app("select", vc.heapGet(st, "CH_closed", "(Array Int Bool)").S, c.S))
+	}
 	vc.curChanName = ""
 	if x.CommaOk {
 		fr.vals[x] = Val{K: VTuple, Tup: []Val{tv(v), tv(vc.fresh("recv_ok", SBool))}}
@@ -379,11 +383,17 @@ func (ex *Exec) selectInstr(fr *Frame, x *ssa.Select, st *State, k func(*State, 
 			if s.Dir == types.RecvOnly {
 				et := s.Chan.Type().Underlying().(*types.Chan).Elem()
 				v := vc.fresh("sel_recv", vc.sorts.SortOf(et))
+				c := ex.toTerm(st2, ex.val(fr, st2, s.Chan), s.Chan.Type())
 				if j == idx {
-					c := ex.toTerm(st2, ex.val(fr, st2, s.Chan), s.Chan.Type())
 					vc.curChanName, vc.curChanElem = chanSourceName(s.Chan), et
 					ex.chanEvent(fr, st2, "recv", c, v)
+					if vc.closeOnly(vc.curChanName) {
+						st2.assume(app("select", vc.heapGet(st2, "CH_closed", "(Array Int Bool)").S, c.S))
+					}
 					vc.curChanName = ""
+				} else if idx == -1 && vc.closeOnly(chanSourceName(s.Chan)) {
+					// default taken: no case was ready, and a closed channel is always ready
+					st2.assume(not(app("select", vc.heapGet(st2, "CH_closed", "(Array Int Bool)").S, c.S)))
 				}
 				tup = append(tup, tv(v))
 			}
@@ -391,6 +401,7 @@ func (ex *Exec) selectInstr(fr *Frame, x *ssa.Select, st *State, k func(*State, 
 		return Val{K: VTuple, Tup: tup}
 	}
 	cur := ex.cur
+	ex.interfereUnlocked(fr, st)
 	for i, s := range x.States {
 		st2 := st.clone()
 		st2.note("%s: select case %d", ex.where(), i)
